@@ -46,6 +46,31 @@ def Circ.unfold (c : Circ) (b : Blocks) (p : Int × Int) : Circ × Except Err Un
     | none => (c, .error .value)
     | some body => c.replaceWithCircuit p (setParams body o.par)
 
+/-- first cycle at or after `k` whose cell on qudit `q` holds `o` (`fuel` cycles are inspected):
+where `batch_unfold` finds a block again after the unfolding of another block of the same cycle
+opened new cycles in front of it -/
+def Circ.seekOp (c : Circ) (o : Op) (q : Nat) (k : Nat) : Nat → Nat
+  | 0 => k
+  | fuel + 1 => if c.cell k q == some o then k else c.seekOp o q (k + 1) fuel
+
+/-- `batch_unfold(points)`: every point must hold an operation (IndexError otherwise, nothing
+changed); duplicates of one operation collapse; the blocks are unfolded from the last to the first
+(cycle, then first qudit), each at the cycle where it sits by then; a point that holds no
+CircuitGate stops the batch with ValueError after the later ones were unfolded. -/
+def Circ.batchUnfold (c : Circ) (b : Blocks) (pts : List (Int × Int)) : Circ × Except Err Unit :=
+  match pts.mapM c.getOp with
+  | .error e => (c, .error e)
+  | .ok found =>
+    let uniq := dedupOps (found.map (fun (k, _, o) => (k, o)))
+    let sorted := (List.range c.numCycles).flatMap (fun k =>
+      sortBy Op.head ((uniq.filter (·.1 == k)).map (·.2)) |>.map (fun o => (k, o)))
+    sorted.reverse.foldl (fun (acc : Circ × Except Err Unit) (k, o) =>
+      match acc.2 with
+      | .error _ => acc
+      | .ok () =>
+        let k' := acc.1.seekOp o o.head k (acc.1.numCycles - k)
+        acc.1.unfold b ((k' : Int), (o.head : Int))) (c, .ok ())
+
 /-- one round of `unfold_all`'s rebuild -/
 def Circ.unfoldRound (c : Circ) (b : Blocks) : Circ :=
   c.iter.foldl (fun acc o =>
